@@ -37,37 +37,81 @@ CURATED = [
 ]
 
 
-def generate(run_seed, prop, tier="quick"):
-    rng = rng_for("rdkit-scenario", run_seed)
+REPEAT_UNITS = [("[!]CC[!]", 2), ("[!]C[C;0.5][!]", 2), ("[!]COC[!]", 3), ("[!]C(C)C[!]", 3), ("[!]C[O;2.0]C[!]", 3),
+                ("[$]CC[$]", 2), ("[$]C[C;0.25]O[$]", 3), ("[>]CC[<]C(=O)OC", 2), ("[>]C[C;3.0][<]", 2)]
+
+
+def _repeat_source(rng):
+    """Chains of repeated units, so that several beads share one fragment name (template reuse)."""
+    style = rng.choice(["squash", "squash", "dollar", "arrow"])
+    if style == "squash":
+        units = [u for u in REPEAT_UNITS if u[0].startswith("[!]")]
+        start = rng.choice(["C[C;0.5][!]", "OC[!]", "[N;2.0]C[!]", "CC[!]"])
+        end = rng.choice(["[!]CC", "[!]C[O;0.1]", "[!]CCl"])
+    elif style == "dollar":
+        units = [u for u in REPEAT_UNITS if u[0].startswith("[$]")]
+        start, end = rng.choice(["C[$]", "[O;0.5]C[$]"]), rng.choice(["[$]C", "[$]O", "[$]C[N;2.0]"])
+    else:
+        units = [u for u in REPEAT_UNITS if u[0].startswith("[>]")]
+        start, end = rng.choice(["C[>]", "[O;0.5][>]"]), rng.choice(["[<]C", "[<]O"])
+    picks = rng.sample(units, k=min(len(units), rng.choice([1, 1, 2])))
+    names = ["B", "M"]
+    seq = [rng.randrange(len(picks)) for _ in range(rng.randint(2, 5))]
+    base = "[#A]" + "".join("[#%s]" % names[k] for k in seq) + "[#D]"
+    defs = ["#A=" + start] + ["#%s=%s" % (names[k], picks[k][0]) for k in range(len(picks))] + ["#D=" + end]
+    return {"string": "{" + base + "}.{" + ",".join(defs) + "}", "family": "repeat", "shared_atoms": style == "squash"}
+
+
+def _source(rng):
     roll = rng.random()
-    if roll < 0.70:
+    if roll < 0.55:
         item = gen_mol.build_item(rng, kind="atomistic", size=rng.randint(2, 22), weights=rng.random() < 0.7,
                                   mid_levels=rng.choice([0, 0, 1, 2]))
-        source = {"string": item["multi"], "family": "decomp", "shared_atoms": False, "item": item}
-    elif roll < 0.93:
+        return {"string": item["multi"], "family": "decomp", "shared_atoms": False, "item": item}
+    if roll < 0.75:
+        return _repeat_source(rng)
+    if roll < 0.93:
         text, shared = rng.choice(CURATED)
-        source = {"string": text, "family": "curated", "shared_atoms": shared}
-    else:
-        source = {"string": rng.choice(KEKULE_CURATED), "family": "kekule", "shared_atoms": False}
+        return {"string": text, "family": "curated", "shared_atoms": shared}
+    return {"string": rng.choice(KEKULE_CURATED), "family": "kekule", "shared_atoms": False}
+
+
+def generate(run_seed, prop, tier="quick"):
+    rng = rng_for("rdkit-scenario", run_seed)
+    sources = [_source(rng)]
+    if rng.random() < 0.25:
+        sources.append(_source(rng))
     engine = "stub" if rng.random() < 0.55 else "real"
     ops = []
-    n_ops = rng.randint(2, 6)
-    pool = ["roundtrip", "embed", "embed_cg", "roundtrip_conf", "translate_forward", "reseed", "foreign_rng", "forward"]
+    n_ops = rng.randint(2, 7)
+    pool = ["roundtrip", "embed", "embed", "embed_cg", "embed_cg", "roundtrip_conf", "translate_forward", "reseed",
+            "foreign_rng", "forward", "repermute", "repermute", "reweight"]
     for _ in range(n_ops):
         kind = rng.choice(pool)
-        op = {"op": kind}
+        op = {"op": kind, "m": rng.randrange(len(sources))}
         if kind == "translate_forward":
             op["t"] = [rng.choice([0.0, 1.0, -3.5, 10.0, 123.25]) for _ in range(3)]
         if kind == "reseed":
             op["seed"] = rng.randrange(1, 2 ** 30)
         if kind == "foreign_rng":
             op["seed"] = rng.randrange(2 ** 31)
+        if kind == "repermute":
+            op.update({"permute": rng.choice(["reverse", "shuffle", "shuffle"]), "relabel": rng.choice(["none", "none", "shuffle", "offset"]),
+                       "perm_seed": rng.randrange(2 ** 30)})
+        if kind == "reweight":
+            op.update({"seed": rng.randrange(2 ** 30), "fraction": rng.choice([0.1, 0.3, 0.6])})
         ops.append(op)
     if not any(o["op"] in ("embed", "embed_cg") for o in ops):
-        ops.insert(rng.randrange(len(ops) + 1), {"op": rng.choice(["embed", "embed_cg"])})
+        ops.insert(rng.randrange(len(ops) + 1), {"op": rng.choice(["embed", "embed_cg"]), "m": 0})
     if not any(o["op"] == "roundtrip" for o in ops) and rng.random() < 0.7:
-        ops.insert(0, {"op": "roundtrip"})
-    return {"family": "rdkit", "prop": prop, "run_seed": run_seed, "source": source, "engine": engine,
+        ops.insert(0, {"op": "roundtrip", "m": 0})
+    if rng.random() < 0.5:
+        # embed, change the node order, embed again: the second call must not reuse anything of the first
+        m = rng.randrange(len(sources))
+        ops += [{"op": "embed", "m": m},
+                {"op": "repermute", "m": m, "permute": "shuffle", "relabel": rng.choice(["none", "shuffle"]), "perm_seed": rng.randrange(2 ** 30)},
+                {"op": rng.choice(["embed", "embed_cg"]), "m": m}]
+    return {"family": "rdkit", "prop": prop, "run_seed": run_seed, "sources": sources, "engine": engine,
             "embed_seed": rng.randrange(1, 2 ** 30),
             "permute": rng.choice(["none", "reverse", "shuffle", "shuffle"]),
             "relabel": rng.choice(["none", "none", "shuffle", "offset"]),
@@ -217,6 +261,31 @@ def _aromatised_signature(before, after, order_map):
     return "chemistry-changed"
 
 
+class _Mol:
+    """One resolved molecule of the history (coarse graph, all-atom graph, bead membership)."""
+
+    def __init__(self, cg, aa):
+        self.cg = cg
+        self.aa = aa
+        self.refresh()
+
+    def refresh(self):
+        self.members = {}
+        for node in self.aa.nodes:
+            for bead in self.aa.nodes[node].get("fragid", []):
+                self.members.setdefault(bead, []).append(node)
+
+    def repermute(self, how, seed, relabel):
+        import networkx as nx
+        aa, mapping = _permute(self.aa, how, seed, relabel)
+        for cnode in self.cg.nodes:
+            sub = self.cg.nodes[cnode].get("graph")
+            if sub is not None:
+                self.cg.nodes[cnode]["graph"] = nx.relabel_nodes(sub, mapping, copy=True)
+        self.aa = aa
+        self.refresh()
+
+
 def run_history(scenario):
     import numpy as np
     import random as stdlib_random
@@ -235,23 +304,22 @@ def run_history(scenario):
     def violate(oracle, detail, seq, signature=None):
         violations.append({"oracle": oracle, "detail": detail, "event": seq, "signature": signature})
 
-    # -- the molecule, resolved by the real code, then permuted by the harness --------------
-    try:
-        cg, aa0 = MoleculeResolver.from_string(sc["source"]["string"]).resolve_all()
-    except Exception as exc:  # noqa
-        return {"events": [], "violations": [], "stats": {}, "rejected": "resolve raised %s: %s" % (type(exc).__name__, str(exc)[:80])}
-    aa, mapping = _permute(aa0, sc["permute"], sc["perm_seed"], sc["relabel"])
-    for cnode in cg.nodes:
-        sub = cg.nodes[cnode].get("graph")
-        if sub is not None:
-            cg.nodes[cnode]["graph"] = nx.relabel_nodes(sub, mapping, copy=True)
-    order_differs = list(aa.nodes) != sorted(aa.nodes)
-    stats["iteration_order_differs_from_keys"] = int(order_differs)
-    stats["atoms"] = len(aa)
-    members = {}
-    for node in aa.nodes:
-        for bead in aa.nodes[node].get("fragid", []):
-            members.setdefault(bead, []).append(node)
+    # -- the molecules, resolved by the real code, then permuted by the harness --------------
+    mols = []
+    for idx, source in enumerate(sc["sources"]):
+        try:
+            cg, aa0 = MoleculeResolver.from_string(source["string"]).resolve_all()
+        except Exception as exc:  # noqa
+            return {"events": [], "violations": [], "stats": {}, "rejected": "resolve raised %s: %s" % (type(exc).__name__, str(exc)[:80])}
+        mol = _Mol(cg, aa0)
+        mol.repermute(sc["permute"], sc["perm_seed"] + idx, sc["relabel"])
+        mols.append(mol)
+        stats["iteration_order_differs_from_keys"] = max(stats.get("iteration_order_differs_from_keys", 0),
+                                                         int(list(mol.aa.nodes) != sorted(mol.aa.nodes)))
+        stats["atoms"] = stats.get("atoms", 0) + len(mol.aa)
+        names = [mol.cg.nodes[b].get("fragname") for b in mol.cg.nodes]
+        if len(names) != len(set(names)):
+            stats["molecules_with_repeated_bead_names"] = stats.get("molecules_with_repeated_bead_names", 0) + 1
     proxy = SimEmbedder(bridge.AllChem, sc["engine"], sc["embed_seed"])
     bridge.AllChem = proxy
 
@@ -262,7 +330,6 @@ def run_history(scenario):
         ok, why = graphcmp.isomorphic(a, b)
         if ok:
             return True
-        signature = None
         try:
             signature = _aromatised_signature(graph_in, graph_out, order_map)
         except Exception:  # noqa
@@ -270,17 +337,18 @@ def run_history(scenario):
         violate("C18.roundtrip", "%s: %s" % (what, why), seq, signature or "chemistry-changed")
         return False
 
-    def have_positions():
-        return all("position" in aa.nodes[n] for n in aa.nodes)
+    def have_positions(mol):
+        return all("position" in mol.aa.nodes[n] for n in mol.aa.nodes)
 
-    def check_positions(seq):
+    def check_positions(mol, seq, engine_called):
         """Oracle for embed ops."""
+        aa = mol.aa
         for node in aa.nodes:
             pos = aa.nodes[node].get("position")
             if pos is None or np.shape(pos) != (3,) or not np.all(np.isfinite(pos)):
                 violate("C18.embed", "node %r has no finite 3-vector after embedding (%r)" % (node, pos), seq, "no-position")
                 return
-        if sc["engine"] == "stub":
+        if sc["engine"] == "stub" and engine_called:
             table = proxy.last_atoms
             seen = {}
             for node in aa.nodes:
@@ -310,20 +378,24 @@ def run_history(scenario):
             if wrong:
                 violate("C18.embed", "%d misplaced coordinates; %s" % (wrong, first), seq, "wrong-atom")
         else:
+            # real engine - or an embed call that never reached the engine: judge by geometry
+            lo, hi = (0.7, 2.3) if sc["engine"] == "real" else (1.0, 1.8)
             bad = 0
             first = None
             for u, v in aa.edges:
                 dist = float(np.linalg.norm(aa.nodes[u]["position"] - aa.nodes[v]["position"]))
-                if not (0.7 <= dist <= 2.3):
+                if not (lo <= dist <= hi):
                     bad += 1
                     first = first or "bonded atoms %r-%r are %.2f A apart" % (u, v, dist)
             stats["bonded_distances_checked"] = stats.get("bonded_distances_checked", 0) + aa.number_of_edges()
             if bad:
-                violate("C18.embed", "%d of %d bonded pairs outside 0.7-2.3 A; %s" % (bad, aa.number_of_edges(), first), seq, "wrong-atom")
+                what = "" if engine_called else " (the embed call never reached the engine: stale coordinates)"
+                violate("C18.embed", "%d of %d bonded pairs outside %.1f-%.1f A%s; %s" % (bad, aa.number_of_edges(), lo, hi, what, first), seq, "wrong-atom")
 
-    def check_forward(seq):
+    def check_forward(mol, seq):
+        aa, cg = mol.aa, mol.cg
         for bead in cg.nodes:
-            nodes = members.get(bead, [])
+            nodes = mol.members.get(bead, [])
             if not nodes:
                 continue
             wsum = sum(float(aa.nodes[n].get("weight", 1) or 0) for n in nodes)
@@ -332,22 +404,24 @@ def run_history(scenario):
             want = sum(float(aa.nodes[n].get("weight", 1) or 0) * np.asarray(aa.nodes[n]["position"], dtype=float) for n in nodes) / wsum
             got = cg.nodes[bead].get("position")
             if got is None or np.shape(got) != (3,) or not np.allclose(got, want, rtol=1e-9, atol=1e-9):
-                violate("C18.forward-map", "bead %r is at %r, weight-normalised average of its %d atoms is %r"
-                        % (bead, None if got is None else [round(float(x), 6) for x in got], len(nodes), [round(float(x), 6) for x in want]),
-                        seq, "bead-position")
+                violate("C18.forward-map", "bead %r (%s) is at %r, weight-normalised average of its %d atoms is %r"
+                        % (bead, cg.nodes[bead].get("fragname"), None if got is None else [round(float(x), 6) for x in got], len(nodes),
+                           [round(float(x), 6) for x in want]), seq, "bead-position")
                 return
         stats["beads_checked"] = stats.get("beads_checked", 0) + len(cg)
 
     for seq, op in enumerate(sc["ops"]):
         kind = op["op"]
         event = {"seq": seq, "op": kind}
+        mol = mols[op.get("m", 0) % len(mols)]
+        aa, cg = mol.aa, mol.cg
         try:
             if kind == "roundtrip":
                 work = copy.deepcopy(aa)
                 for node in work.nodes:
                     work.nodes[node].pop("position", None)
-                mol = bridge.networkx_to_rdkit(work)
-                back = bridge.rdkit_to_networkx(mol)
+                rdmol = bridge.networkx_to_rdkit(work)
+                back = bridge.rdkit_to_networkx(rdmol)
                 order_map = {node: idx for idx, node in enumerate(work.nodes)}
                 chem_equal(work, back, order_map, seq, "round trip without conformer")
                 if any("position" in back.nodes[n] for n in back.nodes):
@@ -356,16 +430,16 @@ def run_history(scenario):
                 event["dig"] = digest(back)
             elif kind == "roundtrip_conf":
                 work = copy.deepcopy(aa)
-                mol = bridge.networkx_to_rdkit(work)
-                status = proxy.EmbedMolecule(mol)
-                if status != 0 or mol.GetNumConformers() == 0:
+                rdmol = bridge.networkx_to_rdkit(work)
+                status = proxy.EmbedMolecule(rdmol)
+                if status != 0 or rdmol.GetNumConformers() == 0:
                     event["out"] = "engine-failed"
                 else:
-                    conf = mol.GetConformer()
-                    back = bridge.rdkit_to_networkx(mol)
+                    conf = rdmol.GetConformer()
+                    back = bridge.rdkit_to_networkx(rdmol)
                     order_map = {node: idx for idx, node in enumerate(work.nodes)}
                     chem_equal(work, back, order_map, seq, "round trip with conformer")
-                    for idx in range(mol.GetNumAtoms()):
+                    for idx in range(rdmol.GetNumAtoms()):
                         pos = back.nodes[idx].get("position") if idx in back.nodes else None
                         ref = conf.GetAtomPosition(idx)
                         if pos is None or not np.allclose(pos, [ref.x, ref.y, ref.z], atol=1e-9):
@@ -376,25 +450,28 @@ def run_history(scenario):
                     event["dig"] = sha(jdump([[round(float(x), 4) for x in back.nodes[n]["position"]] if "position" in back.nodes[n] else None
                                               for n in sorted(back.nodes)]))
             elif kind in ("embed", "embed_cg"):
+                calls0 = proxy.calls
                 if kind == "embed":
                     bridge.embed_3d_via_rdkit(aa)
                 else:
                     coords.embedd_cg_molecule_via_rdkit(cg, aa)
-                check_positions(seq)
+                if proxy.calls == calls0:
+                    stats["probe:embed_without_engine_call"] = stats.get("probe:embed_without_engine_call", 0) + 1
+                check_positions(mol, seq, proxy.calls > calls0)
                 if kind == "embed_cg":
-                    check_forward(seq)
+                    check_forward(mol, seq)
                 event["out"] = "ok"
                 event["dig"] = sha(jdump([[round(float(x), 4) for x in aa.nodes[n]["position"]] for n in sorted(aa.nodes)]))
                 stats["embeds_ok"] = stats.get("embeds_ok", 0) + 1
             elif kind == "forward":
-                if not have_positions():
+                if not have_positions(mol):
                     event["out"] = "skipped"
                 else:
                     coords.forward_map_molecule(cg, aa)
-                    check_forward(seq)
+                    check_forward(mol, seq)
                     event["out"] = "ok"
             elif kind == "translate_forward":
-                if not have_positions():
+                if not have_positions(mol):
                     event["out"] = "skipped"
                 else:
                     coords.forward_map_molecule(cg, aa)
@@ -403,7 +480,7 @@ def run_history(scenario):
                     for node in aa.nodes:
                         aa.nodes[node]["position"] = np.asarray(aa.nodes[node]["position"], dtype=float) + shift
                     coords.forward_map_molecule(cg, aa)
-                    check_forward(seq)
+                    check_forward(mol, seq)
                     for bead, old in before.items():
                         new = np.asarray(cg.nodes[bead]["position"], dtype=float)
                         if not np.allclose(new - old, shift, rtol=0, atol=1e-7):
@@ -412,6 +489,24 @@ def run_history(scenario):
                             break
                     stats["translations"] = stats.get("translations", 0) + 1
                     event["out"] = "ok"
+            elif kind == "repermute":
+                mol.repermute(op["permute"], op["perm_seed"], op["relabel"])
+                stats["fault:reorder-between-calls:fired"] = stats.get("fault:reorder-between-calls:fired", 0) + 1
+                event["out"] = "ok"
+            elif kind == "reweight":
+                # a user re-weights individual atoms of individual beads after resolution
+                import random
+                rng = random.Random(op["seed"])
+                for node in list(aa.nodes):
+                    if rng.random() < op["fraction"]:
+                        weight = rng.choice([0.5, 2.0, 0.25, 4.0, 1.5])
+                        aa.nodes[node]["weight"] = weight
+                        for bead in aa.nodes[node].get("fragid", []):
+                            sub = cg.nodes[bead].get("graph") if bead in cg.nodes else None
+                            if sub is not None and node in sub.nodes:
+                                sub.nodes[node]["weight"] = weight
+                stats["fault:reweight:fired"] = stats.get("fault:reweight:fired", 0) + 1
+                event["out"] = "ok"
             elif kind == "reseed":
                 proxy.seed = op["seed"]
                 event["out"] = "ok"
@@ -445,9 +540,10 @@ def execute(scenario):
     from .procs import fork_call
     sc = scenario
     result = {"status": "ok", "violations": [], "stats": {}}
-    if sc["source"].get("item") is not None and not sc.get("admitted"):
+    items = [src["item"] for src in sc["sources"] if src.get("item") is not None]
+    if items and not sc.get("admitted"):
         from .scen_resolver import admit_items
-        reasons = fork_call(admit_items, ([sc["source"]["item"]],), timeout=120)
+        reasons = fork_call(admit_items, (items,), timeout=120)
         if any(reasons):
             result["status"] = "rejected"
             result["reject_reasons"] = reasons
@@ -466,18 +562,21 @@ def execute(scenario):
         out = ev.get("out", "")
         stats["outcome:" + (out if out in ("ok", "engine-failed", "skipped") else "raised")] = \
             stats.get("outcome:" + (out if out in ("ok", "engine-failed", "skipped") else "raised"), 0) + 1
+        if ev["op"] in ("repermute", "reweight"):
+            pass
         if ev["op"] == "reseed":
             stats["fault:engine-reseed:fired"] = stats.get("fault:engine-reseed:fired", 0) + 1
         if ev["op"] == "foreign_rng":
             stats["fault:foreign-rng:fired"] = stats.get("fault:foreign-rng:fired", 0) + 1
     stats["fault:engine-failure:observed"] = sim["stats"].get("engine_failures", 0)
     stats["engine:" + sc["engine"]] = 1
-    stats["family:" + sc["source"]["family"]] = 1
+    for src in sc["sources"]:
+        stats["family:" + src["family"]] = stats.get("family:" + src["family"], 0) + 1
     stats["permute:" + sc["permute"] + "/" + sc["relabel"]] = 1
-    stats["case"] = sha(jdump([sc["source"]["string"], sc["permute"], sc["relabel"], sc["perm_seed"], sc["engine"]]))
+    stats["case"] = sha(jdump([[src["string"] for src in sc["sources"]], sc["permute"], sc["relabel"], sc["perm_seed"], sc["engine"]]))
     result["digest"] = sha(jdump([[e.get(k) for k in ("seq", "op", "out", "dig")] for e in sim["events"]]))
     result["nontrivial"] = bool(sim["stats"].get("iteration_order_differs_from_keys"))
-    result["sample"] = {"string": sc["source"]["string"], "engine": sc["engine"], "embed_seed": sc["embed_seed"],
+    result["sample"] = {"strings": [src["string"] for src in sc["sources"]], "engine": sc["engine"], "embed_seed": sc["embed_seed"],
                         "permute": sc["permute"], "relabel": sc["relabel"], "ops": sc["ops"],
                         "outcomes": [e.get("out") for e in sim["events"]]}
     return result
@@ -490,6 +589,13 @@ def shrink_candidates(scenario):
             new = copy.deepcopy(sc)
             del new["ops"][k]
             yield new
+    if len(sc["sources"]) > 1:
+        for keep in range(len(sc["sources"])):
+            new = copy.deepcopy(sc)
+            new["sources"] = [new["sources"][keep]]
+            for op in new["ops"]:
+                op["m"] = 0
+            yield new
     if sc["permute"] != "none" or sc["relabel"] != "none":
         new = copy.deepcopy(sc)
         new["permute"] = "none"
@@ -499,9 +605,10 @@ def shrink_candidates(scenario):
         new = copy.deepcopy(sc)
         new["engine"] = "stub"
         yield new
-    for text, shared in CURATED:
-        if len(text) < len(sc["source"]["string"]):
-            new = copy.deepcopy(sc)
-            new["source"] = {"string": text, "family": "curated", "shared_atoms": shared}
-            new["admitted"] = True
-            yield new
+    for idx, src in enumerate(sc["sources"]):
+        for text, shared in CURATED:
+            if len(text) < len(src["string"]):
+                new = copy.deepcopy(sc)
+                new["sources"][idx] = {"string": text, "family": "curated", "shared_atoms": shared}
+                new["admitted"] = True
+                yield new
